@@ -3,6 +3,7 @@ import GoLevel.Driver.Iter
 import GoLevel.Driver.Journal
 import GoLevel.Driver.Bloom
 import GoLevel.Driver.LSM
+import GoLevel.Driver.Table
 /-! `gldriver`: reads one operation per line on stdin, answers one line per operation on stdout.
 The first token selects the layer.  Core-only (must link). -/
 open GoLevel GoLevel.Driver
@@ -16,6 +17,7 @@ def dispatch (st : DState) (line : String) : DState × String :=
   match toks with
   | "key" :: rest => (st, (handleKey rest).getD "bad-op")
   | "jrn" :: rest => (st, (handleJrn rest).getD "bad-op")
+  | "tbl" :: rest => (st, (handleTbl rest).getD "bad-op")
   | "bloom" :: rest => (st, (handleBloom rest).getD "bad-op")
   | "lsm" :: rest =>
     match handleLsm st.lsm rest with
